@@ -43,9 +43,15 @@ Section Roundtrip.
 Variable lower : N -> N.
 Variable printable : N -> bool.
 Hypothesis printable_nl : printable 10 = false.
-(* how the name map changes under the parameter list of an anonymous function (identity for plain printing;
-   "stop renaming" under a parameter named like the renamed reference) *)
-Variable push : list text -> (text -> text) -> (text -> text).
+(* the state of a name map: [ref nm] is the map on the names of context references, [push a nm] the state under the
+   parameter list a of an anonymous function (identity for plain printing; "stop renaming" under a parameter named like
+   the renamed reference), [pa a nm] the parameter list that is printed for a (a itself, except when parameters are
+   given new names to avoid capture) *)
+Variable St : Type.
+Variable ref : St -> text -> text.
+Variable push : list text -> St -> St.
+Variable pa : list text -> St -> list text.
+Hypothesis pa_len : forall a nm, length (pa a nm) = length a.
 
 (* the tokens Expression.String() writes (spaces are added in proofs/ExRender) *)
 Fixpoint ptoks (e : expr) : list token :=
@@ -86,9 +92,9 @@ Notation norm := (norm lower).
 
 (* the same with an arbitrary map on the names of context references, which may change under parameter lists:
    [nm] = map lower gives ptoks / norm; [nm] = rename-then-lower gives the printed tokens of a renamed tree *)
-Fixpoint gtoks (nm : text -> text) (e : expr) : list token :=
+Fixpoint gtoks (nm : St) (e : expr) : list token :=
   match e with
-  | ECtxRef n => [tokc NAME (nm n)]
+  | ECtxRef n => [tokc NAME (ref nm n)]
   | EDot c l => gtoks nm c ++ [DOTt; lookup_tok l]
   | EIndex c l => gtoks nm c ++ [LB] ++ gtoks nm l ++ [RB]
   | ECall f ps =>
@@ -98,7 +104,7 @@ Fixpoint gtoks (nm : text -> text) (e : expr) : list token :=
          | [] => []
          | x :: r => match r with [] => gtoks nm x | _ => gtoks nm x ++ COMMAt :: go r end
          end) ps ++ [RP]
-  | EAnon a b => [LP] ++ names_toks a ++ [RP; ARROWt] ++ gtoks (push a nm) b
+  | EAnon a b => [LP] ++ names_toks (pa a nm) ++ [RP; ARROWt] ++ gtoks (push a nm) b
   | EBin o a b => gtoks nm a ++ [op_tok o] ++ gtoks nm b
   | ENeg a => MINUSt :: gtoks nm a
   | EParen a => LP :: gtoks nm a ++ [RP]
@@ -108,7 +114,7 @@ Fixpoint gtoks (nm : text -> text) (e : expr) : list token :=
   | ENull => [tokc NULL [110; 117; 108; 108]]
   end.
 
-Definition gtoks_list (nm : text -> text) : list expr -> list token :=
+Definition gtoks_list (nm : St) : list expr -> list token :=
   fix go (l : list expr) : list token :=
     match l with
     | [] => []
@@ -121,13 +127,13 @@ Proof. reflexivity. Qed.
 Lemma gtoks_list_cons nm e es : es <> [] -> gtoks_list nm (e :: es) = gtoks nm e ++ COMMAt :: gtoks_list nm es.
 Proof. destruct es; [congruence|reflexivity]. Qed.
 
-Fixpoint gnorm (nm : text -> text) (e : expr) : expr :=
+Fixpoint gnorm (nm : St) (e : expr) : expr :=
   match e with
-  | ECtxRef n => ECtxRef (nm n)
+  | ECtxRef n => ECtxRef (ref nm n)
   | EDot c l => EDot (gnorm nm c) l
   | EIndex c l => EIndex (gnorm nm c) (gnorm nm l)
   | ECall f ps => ECall (gnorm nm f) (map (gnorm nm) ps)
-  | EAnon a b => EAnon a (gnorm (push a nm) b)
+  | EAnon a b => EAnon (pa a nm) (gnorm (push a nm) b)
   | EBin o a b => EBin o (gnorm nm a) (gnorm nm b)
   | ENeg a => ENeg (gnorm nm a)
   | EParen a => EParen (gnorm nm a)
@@ -390,6 +396,33 @@ Qed.
 
 
 (* ---------------------------------------------------------------------------------------------- *)
+(* parameter lists of the same length print kind-wise alike *)
+Lemma names_toks_alike : forall a b : list text, length a = length b -> Forall2 krel (names_toks a) (names_toks b).
+Proof.
+  induction a as [|x [|x2 a'] IH]; intros [|y [|y2 b']] H; try discriminate; cbn [names_toks].
+  - constructor.
+  - constructor; [left; reflexivity|constructor].
+  - constructor; [left; reflexivity|]. constructor; [left; reflexivity|]. apply (IH (y2 :: b')). cbn in *. lia.
+Qed.
+
+Lemma krel_trans_same (x y z : token) : krel x y -> tk y = tk z -> krel x z.
+Proof. intros [H|[H1 H2]] E; [left; congruence|right; rewrite <- E; auto]. Qed.
+
+Lemma Forall2_krel_trans_names hd (a b : list text) :
+  Forall2 krel hd (names_toks a ++ [RP; ARROWt]) -> length b = length a ->
+  Forall2 krel hd (names_toks b ++ [RP; ARROWt]).
+Proof.
+  intros H E.
+  assert (HK : Forall2 (fun y z : token => tk y = tk z) (names_toks a ++ [RP; ARROWt]) (names_toks b ++ [RP; ARROWt])).
+  { apply Forall2_app; [|repeat constructor]. clear H. revert b E.
+    induction a as [|x [|x2 a'] IH]; intros [|y [|y2 b']] E; try discriminate; cbn [names_toks]; repeat constructor.
+    apply (IH (y2 :: b')). cbn in *. lia. }
+  revert H HK. generalize (names_toks a ++ [RP; ARROWt]) (names_toks b ++ [RP; ARROWt]). intros l1 l2 H. revert l2.
+  induction H as [|x y hd' l1' Hxy H IH]; intros l2 HK; inversion HK; subst; constructor.
+  - eapply krel_trans_same; eassumption.
+  - apply IH. assumption.
+Qed.
+
 (* small facts about gtoks nm *)
 
 Definition alike (r1 r2 : list token) : Prop := Forall2 krel r1 r2.
@@ -607,23 +640,27 @@ Proof.
   destruct (HE (push names nm) _ _ _ _ (tokok_tail _ _ Hokr) E1) as (c1 & -> & A1 & G1 & K1).
   apply is_k_eq in ELP.
   exists (t :: hd ++ c1). split; [cbn [app]; rewrite <- app_assoc; reflexivity|]. cbn [gtoks].
+  assert (Hne' : pa names nm <> []).
+  { intros E. apply (f_equal (@length _)) in E. rewrite pa_len in E. destruct names; [congruence|discriminate]. }
+  assert (AH' : Forall2 krel hd (names_toks (pa names nm) ++ [RP; ARROWt])).
+  { eapply Forall2_krel_trans_names; [exact AH|]. apply pa_len. }
   split.
   { cbn [app]. constructor; [left; exact ELP|].
-    replace (names_toks names ++ RP :: ARROWt :: gtoks (push names nm) body)
-      with ((names_toks names ++ [RP; ARROWt]) ++ gtoks (push names nm) body)
+    replace (names_toks (pa names nm) ++ RP :: ARROWt :: gtoks (push names nm) body)
+      with ((names_toks (pa names nm) ++ [RP; ARROWt]) ++ gtoks (push names nm) body)
       by (rewrite <- app_assoc; reflexivity).
     apply alike_app; assumption. }
   split.
   { cbn [app]. constructor; [intros Ht; discriminate|]. apply Forall_app. split.
-    - clear. induction names as [|n [|n2 rr] IH]; [constructor| |]; cbn [names_toks].
+    - clear. generalize (pa names nm). intros names0. induction names0 as [|n [|n2 rr] IH]; [constructor| |]; cbn [names_toks].
       + constructor; [intros Ht; discriminate|constructor].
       + constructor; [intros Ht; discriminate|]. constructor; [intros Ht; discriminate|]. exact IH.
     - constructor; [intros Ht; discriminate|]. constructor; [intros Ht; discriminate|]. exact G1. }
   intros r2 A. cbn [app]. rewrite p_primary_eq. change (tk LP) with LPAREN.
   change (prefix_of LPAREN) with (@None nat). change (lit_of LPAREN) with (@None llabel). cbv iota.
   change (is_k LPAREN LP) with true. cbv iota.
-  rewrite <- !app_assoc. cbn [app]. rewrite (anon_head_names names _ Hne), EAP.
-  rewrite (K1 r2 A). reflexivity.
+  rewrite <- !app_assoc. cbn [app]. rewrite (anon_head_names (pa names nm) _ Hne'), EAP.
+  rewrite (K1 r2 A). cbn [gnorm]. reflexivity.
 Qed.
 
 
@@ -660,13 +697,13 @@ Proof.
   destruct (is_k NAME t) eqn:EN; [|discriminate]. apply is_k_eq in EN.
   destruct (HPo nm _ _ _ _ Hokr H) as (c2 & suf & -> & Ep & A2 & G2 & K2).
   cbn [gtoks] in Ep. split.
-  { exists t, (c2 ++ r1), (tokc NAME (nm (tx t))), suf. split; [reflexivity|]. split; [exact Ep|symmetry; exact EN]. }
+  { exists t, (c2 ++ r1), (tokc NAME (ref nm (tx t))), suf. split; [reflexivity|]. split; [exact Ep|symmetry; exact EN]. }
   exists (t :: c2). split; [reflexivity|]. rewrite Ep.
   split; [cbn [app]; constructor; [left; exact EN|exact A2]|].
   split; [cbn [app]; constructor; [intros Ht; discriminate|exact G2]|].
   intros r2 A. cbn [app]. rewrite p_atom_eq.
-  change (is_k LPAREN (tokc NAME (nm (tx t)))) with false.
-  change (is_k NAME (tokc NAME (nm (tx t)))) with true. cbv iota.
+  change (is_k LPAREN (tokc NAME (ref nm (tx t)))) with false.
+  change (is_k NAME (tokc NAME (ref nm (tx t)))) with true. cbv iota.
   apply (K2 r2 A).
 Qed.
 
@@ -845,19 +882,23 @@ Variable printable : N -> bool.
 Hypothesis printable_nl : printable 10 = false.
 
 Definition push_plain (a : list text) (nm : text -> text) : text -> text := nm.
+Definition ref_fun (nm : text -> text) : text -> text := nm.
+Definition pa_same (a : list text) (nm : text -> text) : list text := a.
+Lemma pa_same_len : forall a nm, length (pa_same a nm) = length a.
+Proof. reflexivity. Qed.
 
-Lemma gtoks_plain : forall e, gtoks printable push_plain (map lower) e = ptoks lower printable e.
+Lemma gtoks_plain : forall e, gtoks printable (text -> text) ref_fun push_plain pa_same (map lower) e = ptoks lower printable e.
 Proof.
   induction e as [n|c l IHc|c l IHc IHl|f ps IHf IHps|a b IHb|o a b IHa IHb|a IHa|a IHa|v|l|b|] using expr_ind';
-    cbn [gtoks ptoks]; unfold push_plain in *; try congruence.
+    cbn [gtoks ptoks]; unfold push_plain, ref_fun, pa_same in *; try congruence.
   rewrite IHf. f_equal. f_equal. f_equal.
   induction IHps as [|x r Hx Hr IH]; [reflexivity|]. destruct r as [|y r']; [exact Hx|]. rewrite Hx, IH. reflexivity.
 Qed.
 
-Lemma gnorm_plain : forall e, gnorm push_plain (map lower) e = ExPrintProofs.norm lower e.
+Lemma gnorm_plain : forall e, gnorm (text -> text) ref_fun push_plain pa_same (map lower) e = ExPrintProofs.norm lower e.
 Proof.
   induction e as [n|c l IHc|c l IHc IHl|f ps IHf IHps|a b IHb|o a b IHa IHb|a IHa|a IHa|v|l|b|] using expr_ind';
-    cbn [gnorm ExPrintProofs.norm]; unfold push_plain in *; try congruence.
+    cbn [gnorm ExPrintProofs.norm]; unfold push_plain, ref_fun, pa_same in *; try congruence.
   rewrite IHf. f_equal.
   induction IHps as [|x r Hx Hr IH]; [reflexivity|]. cbn [map]. rewrite Hx, IH. reflexivity.
 Qed.
@@ -866,7 +907,7 @@ Theorem reparse_tokens ts t : Forall tokok ts -> parse_tokens ts = POk t ->
   alike ts (ptoks lower printable t) /\ parse_tokens (ptoks lower printable t) = POk (ExPrintProofs.norm lower t).
 Proof.
   intros Hok H. rewrite <- gtoks_plain, <- gnorm_plain.
-  exact (greparse_tokens printable printable_nl push_plain (map lower) ts t Hok H).
+  exact (greparse_tokens printable printable_nl (text -> text) ref_fun push_plain pa_same pa_same_len (map lower) ts t Hok H).
 Qed.
 
 End Plain.
@@ -887,20 +928,20 @@ Definition nm_rename (n : text) : text := map lower (if is_from n then to else n
 Definition push_rename (a : list text) (nm : text -> text) : text -> text :=
   if existsb is_from a then map lower else nm.
 
-Lemma gtoks_bound : forall e, gtoks printable push_rename (map lower) e = ptoks lower printable e.
+Lemma gtoks_bound : forall e, gtoks printable (text -> text) ref_fun push_rename pa_same (map lower) e = ptoks lower printable e.
 Proof.
   induction e as [n|c l IHc|c l IHc IHl|f ps IHf IHps|a b IHb|o a b IHa IHb|a IHa|a IHa|v|l|b|] using expr_ind';
-    cbn [gtoks ptoks]; try congruence.
+    cbn [gtoks ptoks]; unfold ref_fun, pa_same in *; try congruence.
   - rewrite IHf. f_equal. f_equal. f_equal.
     induction IHps as [|x r Hx Hr IH]; [reflexivity|]. destruct r as [|y r']; [exact Hx|]. rewrite Hx, IH. reflexivity.
   - replace (push_rename a (map lower)) with (map lower) by (unfold push_rename; destruct (existsb is_from a); reflexivity).
     rewrite IHb. reflexivity.
 Qed.
 
-Lemma gnorm_bound : forall e, gnorm push_rename (map lower) e = ExPrintProofs.norm lower e.
+Lemma gnorm_bound : forall e, gnorm (text -> text) ref_fun push_rename pa_same (map lower) e = ExPrintProofs.norm lower e.
 Proof.
   induction e as [n|c l IHc|c l IHc IHl|f ps IHf IHps|a b IHb|o a b IHa IHb|a IHa|a IHa|v|l|b|] using expr_ind';
-    cbn [gnorm ExPrintProofs.norm]; try congruence.
+    cbn [gnorm ExPrintProofs.norm]; unfold ref_fun, pa_same in *; try congruence.
   - rewrite IHf. f_equal.
     induction IHps as [|x r Hx Hr IH]; [reflexivity|]. cbn [map]. rewrite Hx, IH. reflexivity.
   - replace (push_rename a (map lower)) with (map lower) by (unfold push_rename; destruct (existsb is_from a); reflexivity).
@@ -908,10 +949,10 @@ Proof.
 Qed.
 
 Lemma gtoks_rename : forall e,
-  gtoks printable push_rename nm_rename e = ptoks lower printable (rename is_from to e).
+  gtoks printable (text -> text) ref_fun push_rename pa_same nm_rename e = ptoks lower printable (rename is_from to e).
 Proof.
   induction e as [n|c l IHc|c l IHc IHl|f ps IHf IHps|a b IHb|o a b IHa IHb|a IHa|a IHa|v|l|b|] using expr_ind';
-    cbn [gtoks rename ptoks]; try congruence.
+    cbn [gtoks rename ptoks]; unfold ref_fun, pa_same in *; try congruence.
   - unfold nm_rename. destruct (is_from n); reflexivity.
   - rewrite IHf. f_equal. f_equal. f_equal.
     induction IHps as [|x r Hx Hr IH]; [reflexivity|]. destruct r as [|y r']; [exact Hx|]. cbn [map]. cbn [map] in IH. rewrite Hx, IH. reflexivity.
@@ -919,10 +960,10 @@ Proof.
 Qed.
 
 Lemma gnorm_rename : forall e,
-  gnorm push_rename nm_rename e = ExPrintProofs.norm lower (rename is_from to e).
+  gnorm (text -> text) ref_fun push_rename pa_same nm_rename e = ExPrintProofs.norm lower (rename is_from to e).
 Proof.
   induction e as [n|c l IHc|c l IHc IHl|f ps IHf IHps|a b IHb|o a b IHa IHb|a IHa|a IHa|v|l|b|] using expr_ind';
-    cbn [gnorm rename ExPrintProofs.norm]; try congruence.
+    cbn [gnorm rename ExPrintProofs.norm]; unfold ref_fun, pa_same in *; try congruence.
   - unfold nm_rename. destruct (is_from n); reflexivity.
   - rewrite IHf. f_equal. rewrite map_map.
     induction IHps as [|x r Hx Hr IH]; [reflexivity|]. cbn [map]. rewrite Hx, IH. reflexivity.
@@ -935,7 +976,7 @@ Theorem reparse_renamed ts t : Forall tokok ts -> parse_tokens ts = POk t ->
   /\ parse_tokens (ptoks lower printable (rename is_from to t)) = POk (ExPrintProofs.norm lower (rename is_from to t)).
 Proof.
   intros Hok H. rewrite <- gtoks_rename, <- gnorm_rename.
-  exact (greparse_tokens printable printable_nl push_rename nm_rename ts t Hok H).
+  exact (greparse_tokens printable printable_nl (text -> text) ref_fun push_rename pa_same pa_same_len nm_rename ts t Hok H).
 Qed.
 
 End Renamed.
